@@ -19,7 +19,7 @@ for d in sorted(glob.glob(os.path.join(os.path.dirname(__file__), '..', 'seeded'
     c = m.get('caught_by') or []
     c = c.split() if isinstance(c, str) else c
     t = m.get('caught_by_thorough') or []
-    rnd = 'r5' if '-r5-' in name else 'r4' if '-r4-' in name else 'r3' if '-r3-' in name else 'r2' if '-r2-' in name else 'r1'
+    rnd = 'r6' if '-r6-' in name else 'r5' if '-r5-' in name else 'r4' if '-r4-' in name else 'r3' if '-r3-' in name else 'r2' if '-r2-' in name else 'r1'
     rows.append((rnd, name, m['breaks_property'], ' '.join(c) or '-', ' '.join(t), notes.replace('|', '/')[:150]))
 want = sys.argv[1] if len(sys.argv) > 1 else None
 print('| seeded change | breaks | caught by (quick tier) | thorough tier only | what it is |')
